@@ -155,6 +155,7 @@ type ProxyOpts struct {
 	DenyDomains    []string
 	DirectDomains  []string
 	MITM           bool
+	AutoCA         bool // MITM without CA files: the proxy generates its own CA (HP.MITMCACert)
 	MITMConfig     *forwarder.MITMConfig // optional override (CA filled in if empty)
 	MITMDomains    []string
 	ProxyLocalhost forwarder.ProxyLocalhostMode // default allow (the harness lives on loopback)
@@ -346,7 +347,7 @@ func StartProxy(o ProxyOpts) (*ProxyInst, error) {
 		if mc == nil {
 			mc = forwarder.DefaultMITMConfig()
 		}
-		if mc.CACertFile == "" && o.CA != nil {
+		if mc.CACertFile == "" && o.CA != nil && !o.AutoCA {
 			mc.CACertFile = DataURI(o.CA.CertPEM)
 			mc.CAKeyFile = DataURI(o.CA.KeyPEM)
 		}
